@@ -106,6 +106,30 @@ Definition spec_weight (ops : list obs) (o : obs) (n : string) : Q :=
   * (if Nat.ltb (List.length mine) (List.length ens_reps)
      then inject_Z (zsum (map (union_len ops) ens_reps)) / inject_Z (zsum (map (union_len ops) mine)) else 1).
 
+(* the same weight with the union sizes looked up in a table computed once (used by verdicts that need many weights) *)
+Definition ulen_table (ops : list obs) : list (string * Z) := map (fun m => (m, union_len ops m)) (sample_names ops).
+Fixpoint ulen_lookup (tab : list (string * Z)) (ops : list obs) (m : string) : Z :=
+  match tab with
+  | (k, v) :: rest => if String.eqb k m then v else ulen_lookup rest ops m
+  | [] => union_len ops m
+  end.
+Definition spec_weight_t (ops : list obs) (tab : list (string * Z)) (o : obs) (n : string) : Q :=
+  let e := ens_of n in
+  let ens_reps := filter (fun m => String.eqb (ens_of m) e) (map fst tab) in
+  let mine := filter (fun m => smem m (rep_names o)) ens_reps in
+  (inject_Z (ulen_lookup tab ops n) / inject_Z (own_len o n))
+  * (if Nat.ltb (List.length mine) (List.length ens_reps)
+     then inject_Z (zsum (map (ulen_lookup tab ops) ens_reps)) / inject_Z (zsum (map (ulen_lookup tab ops) mine)) else 1).
+Lemma ulen_lookup_correct ops names m : ulen_lookup (map (fun k => (k, union_len ops k)) names) ops m = union_len ops m.
+Proof. induction names as [|k names IH]; [reflexivity|]. cbn. destruct (String.eqb k m) eqn:E; [apply String.eqb_eq in E; subst; reflexivity | exact IH]. Qed.
+Lemma spec_weight_t_correct ops o n : spec_weight_t ops (ulen_table ops) o n = spec_weight ops o n.
+Proof.
+  unfold spec_weight_t, spec_weight, ulen_table. rewrite map_map. cbn [fst]. rewrite map_id.
+  rewrite ulen_lookup_correct.
+  rewrite !(map_ext (ulen_lookup (map (fun m => (m, union_len ops m)) (sample_names ops)) ops) (union_len ops)) by (intro; apply ulen_lookup_correct).
+  reflexivity.
+Qed.
+
 Fixpoint spec_fluct (ops : list obs) (n : string) (c : Z) (gs : list Q) (os : list obs) : Q :=
   match gs, os with
   | g :: gs', o :: os' => g * spec_weight ops o n * fluct0 o n c + spec_fluct ops n c gs' os'
